@@ -448,9 +448,11 @@ def main(prop, argv):
                     seen_ops.add(op)
                     samples.append({'id': i, 'op': op, 'case': descs[i], 'model': show(model.get(i, b''))})
 
-    # 4. coqchk in the thorough tier
+    # 4. coqchk (VERIF_COQCHK=1): the independent re-check of the compiled files takes tens of minutes per
+    #    property on this development, so it is run on request and, for the whole development at once, by
+    #    tools/coqchk_all.sh (its last report: coq/COQCHK_REPORT.txt)
     coqchk_note = None
-    if tier == 'thorough' and not a.no_coqchk and not a.replay and os.environ.get('VERIF_COQCHK', '1') != '0':
+    if tier == 'thorough' and not a.no_coqchk and not a.replay and os.environ.get('VERIF_COQCHK', '0') == '1':
         with Lock('coq'):
             rc, out, dt = run(['coqchk', '-silent', '-o', '-Q', '.', 'Verif', 'Verif.Props.' + prop], cwd=COQ, timeout=5400)
         coqchk_note = 'coqchk rc=%d in %.0fs: %s' % (rc, dt, ' '.join(out.split())[-600:])
